@@ -206,6 +206,82 @@ def phase_mode():
     return "copy"
 
 
+_TYPE_BITS = {"INT8TYPE": 8, "INT16TYPE": 16, "INT32TYPE": 32, "INT64TYPE": 64}
+
+
+def counter_bits():
+    """width of the machine integer the neighbour counter `nR` of the twin search lives in, read off
+    the source: dtype of `nR = np.empty(n_time, dtype=X)` in Surrogates.twins, X resolved in
+    core/_ext/types.py; the buffer type `ndarray[X_t, ndim=1] nR` of `_twins_s` must be the same
+    type.  Returns (bits | None, dtype name, what was found)."""
+    import re
+    src = open(os.path.join(common.REPO, "src/pyunicorn/timeseries/surrogates.py")).read()
+    name = None
+    for node in ast.walk(ast.parse(src)):
+        if isinstance(node, ast.FunctionDef) and node.name == "twins":
+            for st in ast.walk(node):
+                if isinstance(st, ast.Assign) and len(st.targets) == 1 and \
+                        isinstance(st.targets[0], ast.Name) and st.targets[0].id == "nR" and \
+                        isinstance(st.value, ast.Call):
+                    for kw in st.value.keywords:
+                        if kw.arg == "dtype" and isinstance(kw.value, ast.Name):
+                            name = kw.value.id
+    types = open(os.path.join(common.REPO, "src/pyunicorn/core/_ext/types.py")).read()
+    m = re.search(rf"^{name}\s*=\s*(\w+)\s*$", types, re.M) if name else None
+    bits = _TYPE_BITS.get(m.group(1)) if m else None
+    pyx = open(os.path.join(common.REPO, "src/pyunicorn/timeseries/_ext/numerics.pyx")).read()
+    sig = re.search(r"def _twins_s\((.*?)\):", pyx, re.S)
+    kt = re.search(r"ndarray\[(\w+)_t,\s*ndim=1\]\s*nR", sig.group(1)) if sig else None
+    kname = kt.group(1) if kt else None
+    cast = re.search(r"nR\[j\]\s*=\s*<(\w+)_t>\s*n_time", pyx)
+    cname = cast.group(1) if cast else None
+    found = f"Surrogates.twins: dtype={name}; _twins_s: buffer {kname}_t, cast <{cname}_t>"
+    if name is None or kname != name or cname != name:
+        return None, name, found
+    return bits, name, found
+
+
+def twin_policy():
+    """what Surrogates.twin_surrogates does with the stored embedding, and whether the mutation
+    counter of the embedding setter is part of the cache key of `twins` — the `Policy` of
+    Model/SurrogatesObject.lean.  Returns (reembed, key_mut, what was found)."""
+    src = open(os.path.join(common.REPO, "src/pyunicorn/timeseries/surrogates.py")).read()
+    tree = ast.parse(src)
+    cls = next(n for n in tree.body if isinstance(n, ast.ClassDef) and n.name == "Surrogates")
+    reembed, key_mut, setter_bumps, found = "unknown", False, False, []
+    for fn in cls.body:
+        if not isinstance(fn, ast.FunctionDef):
+            continue
+        if fn.name == "twin_surrogates":
+            def is_embed_assign(st):
+                return isinstance(st, ast.Assign) and any(
+                    isinstance(t, ast.Attribute) and t.attr == "embedding" for t in st.targets) and \
+                    "embed_time_series_array(self.original_data, dimension, delay)" in ast.unparse(st.value)
+            top = [st for st in fn.body if is_embed_assign(st)]
+            nested = [st for st in ast.walk(fn) if is_embed_assign(st) and st not in top]
+            calls_twins = [st for st in fn.body if "self.twins(threshold, min_dist)" in ast.unparse(st)]
+            if top and calls_twins and fn.body.index(top[0]) < fn.body.index(calls_twins[0]):
+                reembed = "always"
+            elif nested:
+                reembed = "ifStale"
+            found.append(f"twin_surrogates: embedding assigned {'unconditionally' if top else 'conditionally' if nested else 'never'}")
+        if fn.name == "twins":
+            for d in fn.decorator_list:
+                u = ast.unparse(d)
+                if "Cached.method" in u and "_mut_embedding" in u:
+                    key_mut = True
+            found.append("twins: " + "; ".join(ast.unparse(d) for d in fn.decorator_list))
+        if fn.name == "__cache_state__":
+            if "self._mut_embedding" in ast.unparse(fn):
+                key_mut = True
+            found.append("__cache_state__: " + ast.unparse(fn.body[-1]))
+        if fn.name == "embedding" and any("setter" in ast.unparse(d) for d in fn.decorator_list):
+            setter_bumps = any(isinstance(st, ast.AugAssign) and "_mut_embedding" in ast.unparse(st.target)
+                               and isinstance(st.op, ast.Add) for st in ast.walk(fn))
+            found.append(f"embedding setter bumps _mut_embedding: {setter_bumps}")
+    return reembed, (key_mut and setter_bumps), "; ".join(found)
+
+
 # --------------------------------------------------------------------------
 # generators
 # --------------------------------------------------------------------------
@@ -457,6 +533,25 @@ def run(ctx):
         HAVE_DRIVER = False
     mode = phase_mode()
     ctx.count(f"phase-multiplication-mode:{mode}")
+    bits, cname, cfound = counter_bits()
+    ctx.count(f"neighbour-counter:{cname}:{bits}-bit")
+    # `int n_time` of the kernels is a C int: the counter theorem must cover every value it can hold
+    ctx.obligation("twins_counter_width_exact covers every n_time a C int holds: the neighbour counter "
+                   f"nR of _twins_s has 2^bits >= 2^31 ({cfound}; bits={bits})", "translator",
+                   bits is not None and bits >= 32,
+                   "the counter wraps for n_time > 2^bits: a state with 2^bits+1 neighbours is taken for an "
+                   "isolated one (twins_counter_wrap_loses_twins); the thorough tier runs n_time = 65537")
+    cbits = bits or 16
+    cdtype = {8: np.int8, 16: np.int16, 32: np.int32, 64: np.int64}[cbits]
+    reembed, key_mut, pfound = twin_policy()
+    ctx.count(f"twin_surrogates-embedding-policy:{reembed}:key_mut={int(key_mut)}")
+    ctx.obligation("twin_surrogates_every_history / twins_cache_coherent are about the code's policy: "
+                   "twin_surrogates re-embeds original_data unconditionally before twins(), the embedding "
+                   f"setter bumps _mut_embedding and that counter is in the cache key of twins ({pfound})",
+                   "translator", reembed == "always" and key_mut,
+                   "see stale_embedding_witness; the history correspondence runs the model with the policy "
+                   "read off the source, the oracle looks for the failing history")
+    pol = f"{'always' if reembed == 'always' else 'ifStale'} {int(key_mut)}"
 
     reqs, impl = [], []          # exact correspondence
     freqs, fimpl = [], []        # float correspondence (phase multiplication)
@@ -669,9 +764,13 @@ def run(ctx):
                 except Exception as e:  # noqa
                     got, tw, emb = "raise:" + type(e).__name__, None, None
             gseed = rng.randrange(1000)
-            reqs.append(f"twinsurr_k {dim} {delay} {enc_num(thr)} {md_eff} {gseed} {enc_vec(draws)} "
-                        f"{enc_mat(data)}")
+            reqs.append(f"twinsurr_kw {cbits} {dim} {delay} {enc_num(thr)} {md_eff} {gseed} "
+                        f"{enc_vec(draws)} {enc_mat(data)}")
             impl.append("raise:IndexError" if got == "raise:ValueError" else got)
+            if rng.random() < 0.2:
+                reqs.append(f"twinsurr_k {dim} {delay} {enc_num(thr)} {md_eff} {gseed} {enc_vec(draws)} "
+                            f"{enc_mat(data)}")
+                impl.append("raise:IndexError" if got == "raise:ValueError" else got)
             if rng.random() < 0.25:
                 reqs.append(f"twinsurr {dim} {delay} {enc_num(thr)} {md_eff} {enc_vec(draws)} "
                             f"{enc_mat(data)}")
@@ -694,8 +793,10 @@ def run(ctx):
                 # series in one call; its lists and the work arrays it leaves behind
                 R0 = np.array([[rng.randrange(2) for _ in range(nT)] for _ in range(nT)],
                               dtype=np.int8).reshape(nT, nT)
-                nR0 = np.array([rng.randrange(-3, 40) for _ in range(nT)], dtype=np.int16)
-                reqs.append(f"twins_k {enc_num(thr)} {md_eff} {enc_mats(emb)} {enc_imat(R0)} "
+                lim = 2 ** (cbits - 1)
+                nR0 = np.array([rng.choice([rng.randrange(-3, 40), -lim, lim - 1, 1, rng.randrange(-lim, lim)])
+                                for _ in range(nT)], dtype=cdtype)
+                reqs.append(f"twins_kw {cbits} {enc_num(thr)} {md_eff} {enc_mats(emb)} {enc_imat(R0)} "
                             f"{enc_ivec(nR0)}")
                 try:
                     tk = []
@@ -776,8 +877,18 @@ def run(ctx):
                          f"RecurrencePlot.twins/twin_surrogates raised {type(err).__name__}: {err}",
                          {"time_series": ts.tolist(), **kw, "min_dist": md, "n_surrogates": ns})
                 continue
-            reqs.append(f"rp_twins_k {md_eff} {enc_imat(R)}")
+            reqs.append(f"rp_twins_kw {md_eff} {enc_imat(R)}")
             impl.append(enc_imat(tw))
+            if rng.random() < 0.3:
+                reqs.append(f"rp_twins_k {md_eff} {enc_imat(R)}")
+                impl.append(enc_imat(tw))
+            ctx.count("rp-R:" + ("symmetric" if np.array_equal(R, R.T) else "asymmetric"))
+            # the method as a whole: twin search, walks, read-out of the state vectors
+            embv = np.array(rp.embedding, dtype=float)
+            if np.isfinite(embv).all() and np.isfinite(np.asarray(out, dtype=float)).all():
+                reqs.append(f"rp_twinsurr {md_eff} {ns_eff} {enc_vec(draws)} {enc_imat(R)} {enc_mat(embv)}")
+                impl.append(enc_mats(np.asarray(out, dtype=float)))
+                ctx.count("gen:RecurrencePlot.twin_surrogates-whole-method")
             if rng.random() < 0.3:
                 reqs.append(f"rp_twins {md_eff} {enc_imat(R)}")
                 impl.append(enc_imat(tw))
@@ -789,6 +900,126 @@ def run(ctx):
             ctx.count("gen:RecurrencePlot.twin_surrogates")
             ctx.count("rp-twins:" + ("some" if npairs else "none"))
             ctx.count("rp-args:" + form)
+
+    # ======================================================================
+    # E2: the kernel _twins_r at its own boundary on arbitrary square matrices (asymmetric,
+    #     all-zero rows, no diagonal) and arbitrary counter arrays
+    # ======================================================================
+    nk = 300 if quick else 2500
+    for c in range(nk):
+        n = rng.choice([0, 1, 2, 3, 4, 5, 6, 8, 11])
+        style = rng.choice(["random", "random", "few-row-types", "symmetric", "column-twins"])
+        if style == "few-row-types":
+            rows = [[rng.randrange(2) for _ in range(n)] for _ in range(2)]
+            Rk = np.array([rows[rng.randrange(2)] for _ in range(n)], dtype=np.int8).reshape(n, n)
+        elif style == "column-twins":
+            cols = [[rng.randrange(2) for _ in range(n)] for _ in range(2)]
+            Rk = np.array([cols[rng.randrange(2)] for _ in range(n)], dtype=np.int8).reshape(n, n).T.copy()
+        else:
+            Rk = np.array([[rng.randrange(2) for _ in range(n)] for _ in range(n)],
+                          dtype=np.int8).reshape(n, n)
+            if style == "symmetric":
+                Rk = np.maximum(Rk, Rk.T)
+        nRk = Rk.sum(axis=1).astype(np.int32) if rng.random() < 0.6 else \
+            np.array([rng.choice([0, 1, 2, 3, -1, 2 ** 31 - 1]) for _ in range(n)], dtype=np.int32)
+        md = rng.choice([0, 0, 1, 2, n + 1])
+        tk = []
+        try:
+            K._twins_r(md, n, Rk, nRk, tk)
+            got = enc_imat(tk)
+        except Exception as e:  # noqa
+            got = "raise:" + type(e).__name__
+        reqs.append(f"twins_rkw {md} {n} {enc_imat(Rk)} {enc_ivec(nRk)}")
+        impl.append(got)
+        ctx.case(("twins_r_kernel", Rk.tobytes().hex(), tuple(int(x) for x in nRk), md),
+                 n >= 4 and any(tk), None)
+        ctx.count(f"gen:_twins_r-kernel:{style}")
+        ctx.count("rp-R:" + ("symmetric" if np.array_equal(Rk, Rk.T) else "asymmetric"))
+
+    # ======================================================================
+    # F: one Surrogates object over a history of normalize / embedding setter / twins /
+    #    twin_surrogates calls — model `SObj.run` with the policy read off the source
+    # ======================================================================
+    nh = 250 if quick else 2000
+    for c in range(nh):
+        kind, data, tags = gen_data(rng, nprng, quick, kinds=("int", "dyadic", "periodic", "two-level",
+                                                             "constant"), variants=False)
+        N, n = data.shape
+        s = Surrogates(clone(data), silence_level=3)
+        ops, outs, names = [], [], []
+        normalized = False
+        last = None
+        for step in range(rng.choice([2, 3, 4, 5, 6])):
+            kindop = rng.choice(["t", "t", "t", "n", "w", "e"])
+            if kindop == "t" and last is not None and rng.random() < 0.6:
+                dim, delay, thr, md = last          # the same parameters again (same embedding shape)
+                if rng.random() < 0.3:
+                    thr = Fraction(rng.choice([1, 4, 8, 12]), 8)
+            else:
+                dim = rng.choice([1, 1, 2, 3])
+                delay = rng.choice([0, 1, 2])
+                if (dim - 1) * delay > n:
+                    dim, delay = 1, 0
+                thr = Fraction(rng.choice([0, 1, 2, 4, 4, 8, 12, 16, 64]), 8)
+                md = rng.choice([0, 0, 1, 2, 7])
+            cur = np.asarray(s.original_data, dtype=float)
+            if normalized and kindop in ("t", "w", "e"):
+                # after the float normalisation the differences are no longer exact in double:
+                # keep the threshold away from every difference so that the kernel's rounded
+                # comparison and the model's exact one decide alike
+                diffs = np.abs(cur[:, :, None] - cur[:, None, :]).ravel()
+                if diffs.size and np.min(np.abs(diffs - float(thr))) <= 1e-9 * max(1.0, float(thr)):
+                    ctx.count("history:skipped-threshold-too-close-to-a-difference")
+                    continue
+            try:
+                with quiet(), np.errstate(all="ignore"):
+                    if kindop == "n":
+                        s.normalize_original_data()
+                        nd = np.asarray(s.original_data, dtype=float)
+                        if not np.isfinite(nd).all():
+                            break
+                        normalized = True
+                        ops.append(f"n@{enc_mat(nd)}")
+                        outs.append("u")
+                    elif kindop == "e":
+                        e = Surrogates.embed_time_series_array(s.original_data, dim, delay)
+                        if rng.random() < 0.3 and e.size:
+                            e = e.copy()
+                            e[rng.randrange(N), rng.randrange(e.shape[1]), rng.randrange(dim)] += 1.0
+                        s.embedding = e
+                        ops.append(f"e@{enc_mats(e)}" if e.shape[1] else None)
+                        outs.append("u")
+                    elif kindop == "w":
+                        ops.append(f"w@{enc_num(thr)}@{md}")
+                        try:
+                            tw = s.twins(float(thr), md)
+                            outs.append(enc_mats(tw, enc_imat))
+                        except AttributeError:
+                            outs.append("raise")
+                    else:
+                        nT = n - (dim - 1) * delay
+                        draws = [Fraction(rng.choice([0, 2 ** 20 - 1, rng.randrange(2 ** 20),
+                                                      rng.randrange(2 ** 20)]), 2 ** 20)
+                                 for _ in range(N * (2 * max(nT, 0) + 3) + 4)]
+                        ops.append(f"t@{dim}@{delay}@{enc_num(thr)}@{md}@{enc_vec(draws)}")
+                        with patched(K, random=DrawProxy(draws)):
+                            outs.append(enc_mat(s.twin_surrogates(dim, delay, float(thr), md)))
+                        last = (dim, delay, thr, md)
+            except Exception as e:  # noqa
+                ctx.fail({"kind": "raises", "method": "history:" + kindop, "error": type(e).__name__},
+                         f"history step {kindop} raised {type(e).__name__}: {e}",
+                         {"data": data.tolist(), "history": names + [kindop]})
+                ops = [None]
+                break
+            names.append(kindop)
+        if not ops or any(o is None for o in ops):
+            continue
+        reqs.append(f"sobj {pol} {enc_mat(data)} {'~'.join(ops)}")
+        impl.append("~".join(outs))
+        ctx.case(("sobj", data.tobytes().hex(), tuple(ops)), n >= 4 and "t" in names and len(names) >= 3)
+        ctx.count("gen:object-history")
+        ctx.count("history:" + ("with" if "n" in names else "without") + "-normalize")
+        ctx.count(f"history:len={len(names)}")
 
     ctx.obligation("call structure: one memoised rfft and one irfft per correlated_noise_surrogates "
                    "call, one irfft per AAFT call and per refinement step", "correspondence",
